@@ -1,2 +1,5 @@
 pub mod c01;
 pub mod c03;
+pub mod c06;
+pub mod c08;
+pub mod c09;
